@@ -214,6 +214,50 @@ def ob_sqlite_memory_diff(f1: int, mo1: int, f2: int, mo2: int, op1: int, is_del
         return got_sq == want and got_mem == want and _listing(sq, HandlerQuery()) == everything and _listing(mem, HandlerQuery()) == everything
 
 
+@obligation(quick=120, thorough=300, partitions_quick=["is_delete", "not is_delete"], partitions_thorough=["is_delete", "not is_delete"],
+            what="a list filter is a SET of admissible values: a value listed more than once (ids gathered from several sources) changes nothing — "
+                 "query returns each matching handler once, delete removes it once and counts it once; SQLite == memory == conjunction spec",
+            bounds={"filter field": "handler_id / run_id / workflow_name / status", "list": "[v0, v0] / [v0, v1, v0] / [miss, miss] / [v1, v1, v1]",
+                    "second filter": "none / is_idle", "last op": "query / delete"})
+def ob_repeated_filter_values(f: int, shape: int, idle: int, is_delete: bool) -> bool:
+    """
+    pre: 0 <= f <= 3 and 0 <= shape <= 3 and 0 <= idle <= 2
+    post: _
+    """
+    f, shape, idle = pick_int(f, 0, 3), pick_int(shape, 0, 3), pick_int(idle, 0, 2)
+    field = _FIELDS[f]
+    v0, v1 = _POOL[0][field], _POOL[1][field]
+    miss = "cancelled" if field == "status" else "zz"
+    vals = [[v0, v0], [v0, v1, v0], [miss, miss], [v1, v1, v1]][shape]
+    flt = {field: vals}
+    if idle:
+        flt["idle"] = idle == 1
+    q = HandlerQuery(handler_id_in=flt.get("hid"), run_id_in=flt.get("rid"), workflow_name_in=flt.get("wf"), status_in=flt.get("status"),
+                     is_idle=flt.get("idle"))
+    model = [dict(d) for d in _POOL]
+    want = sorted(_model_key(d) for d in model if _spec_match(d, flt))
+    rest = sorted(_model_key(d) for d in model if not _spec_match(d, flt))
+    with TmpDir() as tmp:
+        sq = SqliteWorkflowStore(os.path.join(tmp, "s.db"))
+        mem = MemoryWorkflowStore()
+        for st in (sq, mem):
+            for d in _POOL:
+                drive(st.update(_to_handler(d)))
+        for st in (sq, mem):
+            if is_delete:
+                try:
+                    n = drive(st.delete(q))
+                except Exception:
+                    return False
+                if n != len(want) or _listing(st, HandlerQuery()) != rest:
+                    return False
+            else:
+                got = [handler_key(h) for h in drive(st.query(q))]
+                if sorted(got) != want or len(got) != len(set(got)):
+                    return False
+    return True
+
+
 # ------------------------------------------------------------------------------------------------ Ob3 eviction
 def _dup_terminal(nh: int, n: int, ops) -> bool:
     """some handler receives two or more terminal updates within the first n ops (op code = kind * nh + handler, kind 1 = terminal)"""
